@@ -272,7 +272,54 @@ def run_expiry_case(case):
     return fails
 
 
+def run_long_lived_case(case):
+    """one aircraft heard `n` times, a second one a few times: the rows show both counts in full"""
+    fails = []
+    n = int(case["long_lived"])
+    rx = RXS[case.get("rx", 0) % len(RXS)]
+    s = RadarSession("c18l", rows=ROWS, cols=COLS, lat=rx[0], lon=rx[1], opts=["--disable-heading"])
+    try:
+        a, b = ADDRS[0], ADDRS[1]
+        last = None
+        for k in range(0, n, 500):
+            chunk = b""
+            for i in range(k, min(k + 500, n)):
+                last = F.ident(a, f"L{i % 100000:05d}")
+                chunk += F.line(last)
+            s.send(chunk)
+            if not s.wait_log_contains(last.hex(), 120.0):
+                if not s.alive():
+                    fails.append(("C18/terminated", f"radar terminated: {s.stderr()[-300:]}"))
+                    return fails
+                raise Inconclusive("frames not processed within 120 s")
+        for i in range(7):
+            last = F.ident(b, f"S{i}")
+            s.send(F.line(last))
+        if not s.wait_log_contains(last.hex(), 30.0):
+            raise Inconclusive("frames not processed")
+        s.press("F3")
+        if not s.wait_for(lambda: table_rows(s.fresh_screen()) is not None, 4.0):
+            raise Inconclusive("Airplanes tab did not appear")
+        want = {f"{a:06x}": str(n), f"{b:06x}": "7"}
+        got = {}
+        for attempt in range(12):
+            s.p.pump(0.15 if attempt == 0 else 0.4)
+            tr = table_rows(s.fresh_screen())
+            if tr is None:
+                continue
+            got = {r[0].strip(): r[9].strip() for r in tr[1]}
+            if got == want:
+                break
+        if got != want:
+            fails.append(("C18/table/msgs/long_lived", f"Airplanes tab shows {got} (address: messages), the tracker holds {want}"))
+    finally:
+        s.close()
+    return fails
+
+
 def run_case(case):
+    if case.get("long_lived"):
+        return run_long_lived_case(case)
     if case.get("expiry_case"):
         return run_expiry_case(case)
     fails = []
@@ -563,6 +610,8 @@ def run_case(case):
 
 
 def classify(case):
+    if case.get("long_lived"):
+        return ["long-lived aircraft"], True
     if case.get("expiry_case"):
         return ["expiry scenario (stats across time-outs)"], True
     quad = set()
@@ -682,6 +731,10 @@ def main():
         ["markers are identified as cells with the blue foreground colour with --disable-heading --disable-track (and --disable-icao in half of the cases so that labels cannot overwrite markers)", "expected table contents come from rsadsb_common run on the same frames (vcheck helper trackdump): the client is checked as a faithful front end"],
         a.seed,
         regress_one=run_case,
+        # thorough only: an aircraft tracked for more than 10 000 frames next to a fresh one (the
+        # Msgs column then needs five digits); radar takes one frame per pass of its main loop, so
+        # this session runs for minutes
+        extra_cases=([{"long_lived": 10_050, "rx": 0}] if tier == "thorough" else []),
     )
     sys.exit(rc)
 
